@@ -233,6 +233,23 @@ def build_h5dump():
         return exe
 
 
+def build_h5make():
+    """harness/h5make: writes start-distribution files with unusual but legal HDF5 contents"""
+    with Lock("h5dump"):
+        src = os.path.join(VERIF, "harness", "h5make.cpp")
+        with open(src, "rb") as f:
+            key = sha(f.read())[:16]
+        exe = os.path.join(CACHE, "h5make-" + key)
+        if not os.path.exists(exe):
+            cmd = ["g++", "-O1", "-std=c++14", "-I/usr/include/hdf5/serial", src, "-o", exe + ".tmp",
+                   "-L/usr/lib/x86_64-linux-gnu/hdf5/serial", "-lhdf5"]
+            p = subprocess.run(cmd, stdout=subprocess.PIPE, stderr=subprocess.STDOUT, text=True)
+            if p.returncode != 0:
+                raise BuildError("h5make build failed:\n" + p.stdout[-3000:])
+            os.replace(exe + ".tmp", exe)
+        return exe
+
+
 # ------------------------------------------------------------------ translator / lean
 
 def run_translator():
